@@ -5,6 +5,7 @@ from meta import COMMON_NOTE
 import brv
 from engine import Spec, Stream
 from monitors import blkdl as mon
+from monitors import node as mon_node
 
 
 def gen_dl(seed, tier, out):
@@ -17,6 +18,12 @@ def gen_mgr(seed, tier, out):
     n = 120 if tier == "quick" else 2500
     with open(out, "w") as f:
         subprocess.run([str(brv.BIN / "blkmgr"), "gen", str(seed), str(n), tier], stdout=f, check=True)
+
+
+def gen_node(seed, tier, out):
+    n = 120 if tier == "quick" else 2500
+    with open(out, "w") as f:
+        subprocess.run([str(brv.BIN / "node"), "gen", str(seed), str(n), tier, "c16"], stdout=f, check=True)
 
 
 def static_checks(facts):
@@ -40,12 +47,13 @@ def static_checks(facts):
 SPEC = Spec(
     prop="C16",
     title="Block download requests always terminate, exactly once, under every interleaving",
-    go_bins=["blkdl", "blkmgr"],
-    lean_targets=["BRV.Props.C16", "drv_blkdl", "drv_blkmgr"],
-    props_files=[brv.LEAN / "BRV/Props/C16.lean"],
+    go_bins=["blkdl", "blkmgr", "node"],
+    lean_targets=["BRV.Props.C16", "BRV.Props.C16Node", "drv_blkdl", "drv_blkmgr", "drv_node"],
+    props_files=[brv.LEAN / "BRV/Props/C16.lean", brv.LEAN / "BRV/Props/C16Node.lean"],
     streams=[
         Stream("blkdl", "blkdl", "drv_blkdl", gen_dl, monitor=mon.monitor, nontrivial=mon.nontrivial, timeout=900),
         Stream("blkmgr", "blkmgr", "drv_blkmgr", gen_mgr, monitor=mon.monitor_mgr, nontrivial=mon.nontrivial_mgr, timeout=1800),
+        Stream("node", "node", "drv_node", gen_node, monitor=mon_node.monitor_c16, nontrivial=mon_node.nontrivial_c16, timeout=1500),
     ],
     rule="blkdl: EVERY call-granularity interleaving of {Run} x {HandleBlock start, tx, end of stream[, confirmations]} x every multiset of "
          "<= 2 (quick) / <= 3 (thorough) of {Cancel(peer says started), Cancel(not started), Stop, interrupt}, plus variants (no canceller, wrong block, "
@@ -54,7 +62,11 @@ SPEC = Spec(
          "at the end no goroutine may be parked in block_downloader.go. A script is non-trivial if Run is called and at least one other party acts. "
          "blkmgr: real BlockManager (1 ms delay, concurrentBlockRequests 0..4) with a scripted requestor: for 1..4 concurrent downloaders of one block every order in which they "
          "finish or fail (peer stops / wrong block / stream cut), plus seeded scripts of AddRequest, budget changes, deliver, fail, abort, interrupt; observed at rest: "
-         "terminal signals per request, registry size, Run alive; non-trivial = at least one request and one of deliver/fail/abort/interrupt.",
+         "terminal signals per request, registry size, Run alive; non-trivial = at least one request and one of deliver/fail/abort/interrupt. "
+         "node (node side of a request, real BitcoinNode over loopback TCP with a scripted peer, component `node`): RequestBlock / RequestHeaders / CancelBlockRequest / IsBusy / IsStopped and the onStop "
+         "callback around a requested block delivered whole (classic / extended), in pieces cut inside the header, after it, after the count, inside and between transactions, after a wrong block, or never; "
+         "cancels before the block message, after the header, mid-stream, after completion, for another hash; second requests while busy; peer drop at each point; the handler given to RequestBlock "
+         "records started / count / transactions / return; non-trivial = a request and >= 6 ops.",
     assumptions=[
         "HandleBlock is called at most once per BlockDownloader and Run once (this is how block_manager.go/bitcoin_node.go use them); the model's hStart is enabled only while the handler is idle",
         "a stateLock critical section is one atomic step; Go channels are FIFO with the capacity extracted from NewBlockDownloader (Facts.startedCap/completeCap); select takes any ready case",
